@@ -1,7 +1,10 @@
 ---------------------------- MODULE SeqBasicsTrace ----------------------------
 (* Trace validation for the families "orf" and "seqbasics" (C20).            *)
 (*  orf:       run.cfg = [starts, stops, min_len, cloned] = one Finder (or a   *)
-(*             clone of it); the codon sets may overlap; events               *)
+(*             clone of it); the codon sets may overlap; a min_len beyond     *)
+(*             2^31 is logged as min_len_exact (string) with min_len = 2^30    *)
+(*             as a stand-in: both exceed every driven sequence, so nothing    *)
+(*             may and nothing must be reported -- the same verdict; events    *)
 (*             find_all(t) -> v = list of [start,end,offset] in iterator order*)
 (*  seqbasics: run.cfg.kind in                                                *)
 (*     "compl" (cfg.mol = "dna"|"rna"): table -> 256 values; revcomp(t)       *)
@@ -24,7 +27,8 @@ Bool(b) == IF b THEN 1 ELSE 0
 
 ExplainsOrf(cfg, c, r) ==
     /\ r.st = "ok"
-    /\ CASE c.op = "find_all" ->
+    /\ CASE c.op = "finder_new" -> TRUE
+         [] c.op = "find_all" ->
               OrfReportOk(c.a.t, SetOf(cfg.starts), SetOf(cfg.stops), cfg.min_len, r.v)
          \* the iterator forked (cloned) after every number of items: h = the items taken before the
          \* fork, a / b = everything the original / the clone yields afterwards; each continuation
@@ -64,7 +68,7 @@ ExplainsCompl(cfg, c, r) ==
 ExplainsAlpha(cfg, c, r) ==
     LET A == Members(cfg.syms) IN
     /\ r.st = "ok"
-    /\ CASE c.op = "new"        -> TRUE
+    /\ CASE c.op \in {"new", "rt_new"} -> TRUE
          [] c.op = "len"        -> r.v = Cardinality(A)
          [] c.op = "is_empty"   -> r.v = Bool(A = {})
          [] c.op = "max_symbol" -> r.v = MaxOrNone(A)
